@@ -161,11 +161,7 @@ theorem exprKeys_nil_iff (p : List String) :
 
 -- ---------------------------------------------------------------- licence texts
 
-theorem licFilesOf_eq : licFilesOf tree = (licPathsOf tree).map relText := by
-  unfold licFilesOf licPathsOf
-  cases elookup tree "LICENSES" with
-  | none => rfl
-  | some n => cases n <;> rfl
+theorem licFilesOf_eq : licFilesOf tree = (licPathsOf tree).map relText := rfl
 
 theorem mem_spdxLics {fd : Found} {l : LicEntry} :
     l ∈ spdxLics tree fd ↔ ∃ e ∈ fd.licenses, l = licEntryOf tree e := by
@@ -251,7 +247,7 @@ theorem mem_toNodes_name : ∀ (cs : List (String × ENode)) {e : String × Node
 mutual
 theorem wfN_toNode : ∀ (n : ENode), wfNode n → wfN n.toNode
   | .file _, _ => by simp [ENode.toNode, wfN]
-  | .symlink, _ => by simp [ENode.toNode, wfN]
+  | .symlink _, _ => by simp [ENode.toNode, wfN]
   | .dir cs, h => by
     simp only [ENode.toNode, wfN]
     exact wfNs_toNodes cs (by simpa [wfNode] using h)
